@@ -1644,6 +1644,13 @@ func Run(c *ev.Ctx) int {
 			}(cf)
 		}
 	}
+	for _, sc := range []bool{false, true} {
+		wg.Add(1)
+		go func(sc bool) {
+			defer wg.Done()
+			overtakenLane(c, sc)
+		}(sc)
+	}
 	wg.Wait()
 	return c.Finish("model-based programs (10..50 steps; put / copy / copy-from-version / multipart-complete / delete without id / delete by version id of current, non-current, marker, null and vanished ids / paged ListObjectVersions / suspend / re-enable, optionally objects that predate versioning) against a reference version stack per key; after every mutation: GET+HEAD of every key, GET+HEAD ?versionId of every id ever issued, full ListObjectVersions. distinct = (configuration, bucket versioning state, step kind, target/previous-entry class, context class of the key: null / marker on top or in stack, ever suspended, sidecar) plus program shapes by the special features they contain", c.Pick(40, 120))
 }
